@@ -101,6 +101,16 @@ def assumptions_of(pid, cone=None):
     return ok, out
 
 
+MERGE_RE = re.compile("[\u0300-\u036f\u200d\ufe0e\ufe0f\u20e3\u0e31\u0e33-\u0e3a\u0e47-\u0e4e\u1160-\u11ff\U0001f1e6-\U0001f1ff\U0001f3fb-\U0001f3ff]")
+
+
+def merge_pieces(case_text):
+    """Does the input of the case contain code points that extend a grapheme cluster (combining marks, ZWJ,
+    variation selectors, keycap, Thai marks, conjoining jamo, regional indicators, emoji modifiers)?"""
+    bs = b"".join(bytes(int(x) for x in l.split()[1:]) for l in case_text.splitlines() if l.startswith("110"))
+    return MERGE_RE.search(bs.decode("utf8", "ignore")) is not None
+
+
 def load_known():
     path = os.path.join(VERIF, "known_findings.json")
     if not os.path.exists(path):
@@ -313,6 +323,13 @@ class Run:
                 if not text.startswith(ppref):
                     continue
                 lasting = tainted_from is not None and op >= tainted_from
+                if " panic" in text.split(":")[0] or " wedge" in text.split(":")[0]:
+                    lasting = False    # a panic or a wedge is never excused by what a known finding does to the cells
+                elif name != "corpus" and is_span and "-m1" in cid and merge_pieces(case_lines(cases_text, cid)):
+                    # KF-grapheme-merge: grapheme mode, span buffer, input with marks / joiners / selectors / indicators that
+                    # can arrive apart from their base: the merged text no longer measures to the width its span claims
+                    self.known_hits["KF-grapheme-merge"] += 1
+                    continue
                 if is_span and lasting:
                     # the row is known to be malformed from here on (D12 glyph wider than the screen, D13 raw invalid bytes)
                     self.known_hits["P:" + text.split(" ")[0]] += 1
@@ -422,8 +439,12 @@ def main():
             if path.endswith(".json"):
                 corpus += [w for w in json.load(open(os.path.join(VERIF, "corpus", path))) if pid in w.get("properties", [w.get("property")])]
         if corpus and st.get("harness_ok", True):
-            txt = "".join(wit.case_text(w) for w in corpus)
-            run.run_batch("corpus", txt, False, set(cfg["tags"]), set(), tuple(cfg["ppref"]))
+            # witnesses outside the model's domain (grapheme clusters) run for the direct predicates only
+            for part, tags in (([w for w in corpus if not w.get("predicates_only")], set(cfg["tags"])),
+                               ([w for w in corpus if w.get("predicates_only")], set())):
+                if part:
+                    txt = "".join(wit.case_text(w) for w in part)
+                    run.run_batch("corpus", txt, False, tags, set(), tuple(cfg["ppref"]))
             run.stats["corpus_cases"] = len(corpus)
         # ---- generated cases ----
         if st.get("harness_ok", True):
